@@ -140,8 +140,24 @@ U8Seqs == { <<x>> : x \in U8 } \cup { <<x, y>> : x \in U8, y \in {65, 128, 159, 
     \cup { <<x, y, 128, z>> : x \in {240, 241, 244, 245}, y \in {128, 143, 144, 191}, z \in {65, 128, 191, 192} }
     \cup { <<239, 191, 189, 65>>, <<65, 239, 191, 189>>, <<240, 159, 146, 169>>, <<195, 169, 195, 169>>,
            <<226, 130, 172, 65>>, <<194>> \o <<65, 128>>, <<240, 144, 128>>, <<226, 130>> }
+\* Interrupted multi-byte sequences.  4.2.10 collects the decoded escapes AND the unescaped
+\* characters into one byte array that has to be UTF-8, so anything between the octets of a
+\* multi-byte sequence breaks it.  For every sequence length (2, 3, 4) and every split position
+\* inside it: 1..2 unescaped characters (letter, SP, "(", "-") or an escaped ASCII character in
+\* the gap, then the right number of continuation octets, one too few, or none; with and
+\* without text before the sequence.
+MultiByte == { <<195, 169>>, <<226, 130, 172>>, <<240, 159, 152, 128>> }
+Gaps == { <<97>>, <<32>>, <<40>>, <<45>>, <<120, 45>>, <<40, 32>>, <<45, 45>>, Esc(40), Esc(65) }
+GappedAt(m, k) ==
+    { Disp(pre \o EscAll(SubSeq(m, 1, k)) \o g \o EscAll(SubSeq(m, k + 1, e))) :
+        pre \in { << >>, <<99, 97, 102>> }, g \in Gaps, e \in { Len(m), Len(m) - 1, k } }
+Gapped == UNION { UNION { GappedAt(m, k) : k \in 1..(Len(m) - 1) } : m \in MultiByte }
+\* complete sequences with unescaped characters around them (these are valid)
+Around == { Disp(g \o EscAll(m) \o g) : g \in { <<97>>, <<32>>, <<40, 45>> }, m \in MultiByte }
+
 Displays ==
     { Disp(EscAll(b)) : b \in U8Seqs }
+    \cup Gapped \cup Around
     \cup { Disp(Esc(195) \o <<97>>), Disp(<<97>> \o Esc(169)), Disp(Esc(195) \o <<34>>),
            Disp(Esc(195) \o Esc(169)) \o <<97>>, Disp(Esc(195) \o Esc(169) \o <<97>>),
            <<37, 34>> \o Esc(195) \o Esc(169), <<37, 34>> \o Esc(65) \o <<37, 52>>,
